@@ -156,7 +156,7 @@ func (g *gen) wellFormed(size int) *sfeed {
 			if a == b {
 				continue
 			}
-			tr.rows = append(tr.rows, srow{"from_stop_id": stopIDs[a], "to_stop_id": stopIDs[b], "transfer_type": g.pick([]string{"0", "1", "2", "3"}), "min_transfer_time": g.pick([]string{"", "0", "120", "-5"})})
+			tr.rows = append(tr.rows, srow{"from_stop_id": stopIDs[a], "to_stop_id": stopIDs[b], "transfer_type": g.pick([]string{"0", "1", "2", "3"}), "min_transfer_time": g.pick([]string{"", "0", "120", "-5", "16777217", "2147483647"})})
 		}
 	}
 	nSvc := 1 + g.r.Intn(3)
@@ -204,6 +204,12 @@ func (g *gen) wellFormed(size int) *sfeed {
 		for _, id := range shapeIDs {
 			n := 1 + g.r.Intn(2+size/3)
 			seqs := g.r.Perm(n * 3)[:n]
+			if g.coin(0.2) { // large sequence numbers, adjacent: beyond float32's integer precision, up to the int32 limit
+				base := []int{16777216, 20000000, 1500000001, 2147483647 - n*3}[g.r.Intn(4)]
+				for k := range seqs {
+					seqs[k] += base
+				}
+			}
 			for _, q := range seqs {
 				sh.rows = append(sh.rows, srow{"shape_id": id, "shape_pt_lat": g.decimal(), "shape_pt_lon": g.decimal(), "shape_pt_sequence": fmt.Sprint(q), "shape_dist_traveled": g.pick([]string{"", "0", "12.5"})})
 			}
@@ -224,7 +230,7 @@ func (g *gen) wellFormed(size int) *sfeed {
 	if g.coin(0.5) {
 		fq := add("frequencies.txt")
 		for k := g.r.Intn(4); k > 0; k-- {
-			fq.rows = append(fq.rows, srow{"trip_id": tripIDs[g.r.Intn(nTrips)], "start_time": g.gtfsTime(), "end_time": g.gtfsTime(), "headway_secs": fmt.Sprint(60 * (1 + g.r.Intn(30))), "exact_times": g.pick([]string{"0", "1"})})
+			fq.rows = append(fq.rows, srow{"trip_id": tripIDs[g.r.Intn(nTrips)], "start_time": g.gtfsTime(), "end_time": g.gtfsTime(), "headway_secs": g.pick([]string{fmt.Sprint(60 * (1 + g.r.Intn(30))), "16777217", "33554433"}), "exact_times": g.pick([]string{"0", "1"})})
 		}
 	}
 	stt := add("stop_times.txt")
@@ -275,7 +281,9 @@ func (g *gen) presentation(f *sfeed) *presentation {
 		p.members = append(p.members, t.name)
 	}
 	for k := g.r.Intn(3); k > 0; k-- {
-		p.members = append(p.members, g.pick([]string{"feed_info.txt", "fare_rules.txt", "README", "attributions.txt"}))
+		// unknown extra files, including ones that merely share a base name with a supported table
+		p.members = append(p.members, g.pick([]string{"feed_info.txt", "fare_rules.txt", "README", "attributions.txt",
+			"archive/2023/stops.txt", "drafts/transfers.txt", "old/stop_times.txt", "backup/agency.txt", "x/calendar_dates.txt", "Stops.txt", "stops.txt.bak"}))
 	}
 	g.r.Shuffle(len(p.members), func(i, j int) { p.members[i], p.members[j] = p.members[j], p.members[i] })
 	return p
